@@ -228,7 +228,7 @@ def _height(c):
 class Sim:
     id = ID
     level = LEVEL
-    runs = {"quick": 2400}
+    runs = {"quick": 4000}
     budget = {"thorough": 600}
     chunk = {"quick": 50, "thorough": 50}
     rule = ("One evaluation = one seeded session: a forest of 1-2 root collections, nesting depth <= 3, 2-7 leaves "
